@@ -217,13 +217,13 @@ def builtin_tables(ctx, rep, prop="C05"):
                 tree = [v for l, v in p_.conds if isinstance(l, tuple) and l[0] == "variant" and fmt_label(l[1]) == "fr.ast"]
                 calls_ = [e for e in p_.effects if e[0] == "call" and e[1].endswith("::insert")]
                 srcs_ = [e for e in p_.effects if e[0] == "next"]
-                ins.append((tuple(tree), tuple((fmt_label(c[2][1]), fmt_label(c[2][2])) for c in calls_), tuple(fmt_label(x[1]) for x in srcs_)))
+                ins.append((tuple(tree), tuple(tuple(fmt_label(x) for x in c[2][1:3]) if len(c[2]) >= 3 else (c[1],) + tuple(fmt_label(x) for x in c[2]) for c in calls_), tuple(fmt_label(x[1]) for x in srcs_)))
             detl = sorted(set(ins))
             want_l = sorted(set([(("Some",), (("ast::Aidl::get_key(fr.ast.Some.0)", "ast::Item::get_kind(fr.ast.Some.0.item)"),), ("std::collections::HashMap::<K, V, S, A>::values(self.lalrpop_results)",)),
                                  (("None",), (), ("std::collections::HashMap::<K, V, S, A>::values(self.lalrpop_results)",))]))
             okl = detl == want_l
-        except (Unsupported, KeyError) as e:
-            detl = str(e)
+        except (Unsupported, KeyError, IndexError, TypeError) as e:
+            detl = "%s: %s" % (type(e).__name__, e)
         rep.check(okl, "C", "%s|C|collect_item_keys|chain" % prop, cfg.where(fck),
                   "collect_item_keys must register, for every stored result that has a tree, (tree.get_key(), tree.item.get_kind()) - as values().flat_map(tree).map((key, kind)).collect() or as the equivalent loop; "
                   "extracted adaptor chain %r, loop form %r" % (got, detl), sample={"form": "loop", "per element": detl})
